@@ -367,9 +367,9 @@ func (e *env) bind(kind int) int {
 	case kPlain:
 		switch kind {
 		case qFifo:
-			q = qPlainF{e.wPlain.BindQueue()}
+			q = qPlainF{e.wPlain.WithQueue(newRecQ[iJob[int]]())}
 		case qPrio:
-			q = qPlainP{e.wPlain.BindPriorityQueue()}
+			q = qPlainP{e.wPlain.WithPriorityQueue(newRecPQ[iJob[int]]())}
 		case qPersist:
 			ad := newRecAdapter(false, len(e.adapters))
 			e.adapters = append(e.adapters, ad)
@@ -389,17 +389,17 @@ func (e *env) bind(kind int) int {
 		}
 	case kErr:
 		if kind == qPrio {
-			q = qErrP{e.wErr.BindPriorityQueue()}
+			q = qErrP{e.wErr.WithPriorityQueue(newRecPQ[iErrorJob[int]]())}
 		} else {
 			kind = qFifo
-			q = qErrF{e.wErr.BindQueue()}
+			q = qErrF{e.wErr.WithQueue(newRecQ[iErrorJob[int]]())}
 		}
 	case kResult:
 		if kind == qPrio {
-			q = qResP{e.wRes.BindPriorityQueue()}
+			q = qResP{e.wRes.WithPriorityQueue(newRecPQ[iResultJob[int, int]]())}
 		} else {
 			kind = qFifo
-			q = qResF{e.wRes.BindQueue()}
+			q = qResF{e.wRes.WithQueue(newRecQ[iResultJob[int, int]]())}
 		}
 	}
 	e.qs = append(e.qs, q)
@@ -473,6 +473,7 @@ func (e *env) closeJob(s *sub) string {
 	}
 	c := e.call("Close", "d"+strconv.Itoa(s.data))
 	r := errName(s.handle.Close())
+	vt.Mark("hret:Close", s.handle, r)
 	c.ret(r)
 	if r == "nil" {
 		s.closeNil = append(s.closeNil, c.tRet)
